@@ -17,6 +17,7 @@
 //   dswrite <file> <n> {x y}*n <nlist> idx*              imcio_write_dS
 //   iwrite <file> <k> {name nblocks {b e s}*}*k          imcio_write_index
 //   iread <file>
+#include <cmath>
 #include <cstdio>
 #include <fstream>
 #include <iostream>
@@ -129,6 +130,13 @@ json dumpTop(Topology &t, bool full) {
     o["nres"] = t.ResidueCount();
   }
   return o;
+}
+
+// JSON has no inf/nan: non-finite numbers are printed as strings
+json jnum(double v) {
+  if (std::isnan(v)) return json("nan");
+  if (std::isinf(v)) return json(v > 0 ? "inf" : "-inf");
+  return json(v);
 }
 
 char flagOf(const std::string &s) {
@@ -281,9 +289,10 @@ int main() {
         t.SetHasYErr(hy != 0);
         t.resize(n);
         for (Index i = 0; i < n; ++i) {
-          double x, y, e;
-          std::string fl;
-          in >> x >> y >> e >> fl;
+          // numbers are read as tokens: operator>>(double) does not accept inf/nan
+          std::string sx, sy, se, fl;
+          in >> sx >> sy >> se >> fl;
+          double x = std::stod(sx), y = std::stod(sy), e = std::stod(se);
           if (hy)
             t.set(i, x, y, flagOf(fl), e);
           else
@@ -301,11 +310,11 @@ int main() {
         res["hasyerr"] = t.GetHasYErr();
         json x = json::array(), y = json::array(), e = json::array(), fl = json::array();
         for (Index i = 0; i < t.size(); ++i) {
-          x.push_back(t.x(i));
-          y.push_back(t.y(i));
+          x.push_back(jnum(t.x(i)));
+          y.push_back(jnum(t.y(i)));
           fl.push_back(flagStr(t.flags(i)));
         }
-        for (Index i = 0; i < t.yerr().size(); ++i) e.push_back(t.yerr(i));
+        for (Index i = 0; i < t.yerr().size(); ++i) e.push_back(jnum(t.yerr(i)));
         res["x"] = x;
         res["y"] = y;
         res["yerr"] = e;
